@@ -314,7 +314,7 @@ META = dict(
 )
 
 MANIFEST = dict(
-    text='For C13: Biomolecule.update_ss_bridges + apply_patch + add_hydrogens (HG suppression) + CYS.set_state on 2..4 (thorough 5) real CYS residues in four chain layouts and several file orders, with the SG-SG distances an arbitrary symbolic metric, so every placement around the 2.5 A limit (including the boundary) is covered; a bridged pair through the real non_trivial with input names, a rebuilt SG, the chain position of the cysteine and (PARSE) neutral termini as selectors.',
+    text='For C13: Biomolecule.update_ss_bridges + apply_patch + add_hydrogens (HG suppression) + CYS.set_state on 2..4 (thorough 5) real CYS residues in four chain layouts and several file orders, with the SG-SG distances an arbitrary symbolic metric, so every placement around the 2.5 A limit (including the boundary) is covered; a bridged pair through the real non_trivial with input names, a rebuilt SG, the chain position of the cysteine and (PARSE) neutral termini as selectors. Round 5: both partners fully parameterised and keyed with the terminal prefix of their chain position; a three-sulfur cluster next to a clean pair (n = 5) in the quick tier.',
     note='Trusted: z3, symx proxies. util.distance is stubbed for SG-SG pairs (returns the symbolic metric); everything else is the real code on structures generated from AA.xml templates. Non-isolated configurations are unconstrained by the property. N <= 5 cysteines.',
     technique='symbolic execution of real code on z3 Real proxies (symx) + SMT verdict per path',
     design='DESIGN.md section 3 C13',
